@@ -34,6 +34,8 @@ def generate(gen, tier):
         t = restrict(gen, gen.tree(depth=gen.rng.choice([2, 3, 4]), width=gen.rng.choice([3, 4]),
                                    weights=[2, 2, 3, 2, 2, 2, 2, 2, 4, 1, 2],
                                    key_style=gen.rng.choice([None, 'str', 'int', 'mixed', 'tup'])))
+        if gen.rng.random() < 0.3:
+            t = restrict(gen, gen.with_leafless(t, 0.4))
         cfg = gen.cfg(pred=gen.rng.choice([0, 0, 0, 1, 2, 5, 6]))
         s = [A('structure'), cfg, t]
         lines = [op('accessors', s), op('paths', s), op('flatten_with_path', cfg, t)]
